@@ -193,10 +193,19 @@ Producible(t) ==
     [] t.k = "ins" -> t.v \in KnownInstr
     [] t.k = "id" -> ~HasSpace(t.v, 1) /\ Len(t.v) > 0 /\ Classify(t.v, KnownInstr).item = IId(t.v) /\ Classify(t.v, KnownInstr).kind = "item"
     [] OTHER -> FALSE
+\* the same shape, names unrestricted: for trees that the implementation's own parser has just produced from a
+\* source text (act field "src") every name is parser-producible by construction
+RECURSIVE ProducibleShape(_)
+ProducibleShape(t) ==
+  CASE t.k = "list" -> \A i \in 1..Len(t.v) : ProducibleShape(t.v[i])
+    [] t.k \in {"int", "bool", "float"} -> TRUE
+    [] t.k = "ins" -> t.v \in KnownInstr
+    [] t.k = "id" -> Len(t.v) > 0
+    [] OTHER -> FALSE
 \* print -> parse -> print (C11)
 JudgeRoundtrip(e, pre) ==
   IF Crashed(e) THEN Verdict("crash", "roundtrip", "C11", <<>>, e.post.msg)
-  ELSE IF pre.exec = <<>> \/ ~Producible(pre.exec[1]) THEN Blank("ok", "roundtrip:skipped")
+  ELSE IF pre.exec = <<>> \/ ~(Producible(pre.exec[1]) \/ ("src" \in DOMAIN e.act /\ ProducibleShape(pre.exec[1]))) THEN Blank("ok", "roundtrip:skipped")
   ELSE LET t == pre.exec[1]  x == e.ret IN
        IF ~(Len(x.t2) = 1 /\ SkeletonEq(t, x.t2[1]) /\ x.untouched)
        THEN Verdict("mismatch", "roundtrip", "C11", <<"t2">>, "parse(print(t)) is not structurally equal to t")
